@@ -9,7 +9,6 @@ from rconn import constants
 PID = "C19"
 HEADER = "From ZV Require Import Common.Exec Framing.WriteConn Framing.Pipe Framing.PipeExec.\nOpen Scope N_scope.\n"
 SIG = "C19.flush_cancelled_after_partial_write"
-NOHOOK = os.path.join(HARNESS, "target-nohook")
 
 
 def gen_cases(ck):
@@ -70,10 +69,12 @@ def main():
         intact = [rp["case"]] if rp.get("case", {}).get("kind") == "intact" else []
         cancel = [rp["case"]] if rp.get("case", {}).get("kind") == "cancel" else []
     # the socket harness is built WITHOUT the hook cfg: production buffer limit, real sizes
-    lock = os.path.join(HARNESS, "Cargo.lock")
+    root = harness_root()
+    NOHOOK = os.path.join(root, "target-nohook")
+    lock = os.path.join(root, "Cargo.lock")
     if not os.path.exists(lock):
         sh("cp %s/Cargo.lock %s" % (REPO, lock))
-    rc, log = sh("cargo build --offline --bin sock --target-dir %s" % NOHOOK, timeout=1500, cwd=HARNESS,
+    rc, log = sh("cargo build --offline --bin sock --target-dir %s" % NOHOOK, timeout=1500, cwd=root,
                  env={"RUSTFLAGS": ""})
     if rc != 0:
         ck.violation("socket harness does not build against /repo", {"log": log[-3000:]}, tag="build", no_input=True)
